@@ -65,3 +65,22 @@ pub fn unhex(s: &str) -> Option<Vec<u8>> {
     }
     (0..s.len()).step_by(2).map(|i| u8::from_str_radix(&s[i..i + 2], 16).ok()).collect()
 }
+
+/// A panic raised inside the library under test (location in one of its crates' sources), as
+/// (signature without line numbers, full message).  Panics of harness code are not matched.
+pub fn library_panic(panics: &[String]) -> Option<(String, String)> {
+    for p in panics {
+        if let Some(at) = p.rfind(" @ ") {
+            let loc = &p[at + 3..];
+            let in_lib = ["fe2o3-amqp/src/", "fe2o3-amqp-types/src/", "serde_amqp/src/", "serde_amqp_derive/src/"].iter().any(|c| loc.contains(c)) && !loc.contains("/verif/");
+            if in_lib {
+                let file = loc.rsplit_once(':').map(|x| x.0).unwrap_or(loc);
+                let file = file.rsplit_once(':').map(|x| x.0).filter(|f| f.ends_with(".rs")).unwrap_or(file);
+                let short = ["fe2o3-amqp/src/", "fe2o3-amqp-types/src/", "serde_amqp/src/", "serde_amqp_derive/src/"].iter().find_map(|c| file.find(c).map(|i| &file[i..])).unwrap_or(file);
+                let msg: String = p[..at].chars().filter(|c| !c.is_ascii_digit()).take(60).collect();
+                return Some((format!("library-task-panicked [{msg} @ {short}]"), p.clone()));
+            }
+        }
+    }
+    None
+}
